@@ -110,6 +110,12 @@ CHECKS.update({
         "All identifiers over a 7-letter alphabet up to length 6/7 and random identifiers to length 40 are converted and compared with a reference written from the statement (identity, idempotence, identifier-ness); every generated package is run with and without naming conversion and the two stub sets must agree on every recoverable Python name, carry @PythonName/@PythonModule exactly where the rendering differs, and be equal in everything else.",
         "§5 C09",
     ),
+    "C16": (
+        "E3 history engine + E4 relation engine",
+        "stateful property-based testing: Hypothesis RuleBasedStateMachine over one API object (generate fresh / generate again / serialise in any order) with model-immutability and first-generation-equality invariants; double console-script runs into one directory",
+        "State machines own the history of calls on one API model of a generated package (optional literals, literal unions, *args, aliased re-exports, private bases shared by several subclasses, foreign classes); after every step the canonical serialisation of the model must be unchanged, every generation must reproduce the first one with the same naming setting, and inlined copies of one method must be identical; two CLI runs into one directory must leave the tree of a single run. A failing history is shrunk and replayed without Hypothesis.",
+        "§5 C16",
+    ),
 })
 
 NOT_YET = "check not built yet in this session (work in progress, see DESIGN.md §9)"
